@@ -49,7 +49,26 @@ def cmd_check(pid, tier):
         tb = traceback.format_exc().strip().splitlines()
         chk.inconc("rule engine error (%s: %s) at %s" % (type(e).__name__, e, tb[-3].strip() if len(tb) >= 3 else ""))
         kw = {}
+    if tier == "thorough" and not chk.inconclusive:
+        selftest(chk, pid)
     return report.finish(chk, **kw)
+
+
+def selftest(chk, pid):
+    """thorough tier: the checker's own sensitivity and specificity on this property, decided on scratch copies of /repo:
+    every stored mutant / seeded change / reverted fix must be reported, every behaviour-preserving control must be silent"""
+    sys.path.insert(0, os.path.join(HERE, "tools"))
+    import run_mutants
+    chk.rule("SELFTEST", "every stored mutant (mutants/%s/*.patch), every seeded change (seeded/*/patch.diff claimed for this property) and every reverted fix: commit is applied to a "
+                         "scratch copy of the current tree and must make this check report a violation; every behaviour-preserving control (controls/%s/*.patch) must leave it silent" % (pid, pid))
+    res = run_mutants.selftest(pid)
+    for (_, name, status, detail) in res:
+        if status in ("caught", "silent"):
+            chk.ok("SELFTEST", "%s: %s (%s)" % (name, status, detail[:120]), "")
+        else:
+            chk.obligations.append(("SELFTEST", "%s: %s" % (name, status), False, ""))
+            chk.inconc("self-test: %s is %s - the checker, not the repository, is at fault (%s)" % (name, status, detail[:160]))
+    chk.floors["SELFTEST"] = (len(res), 1)
 
 
 def cmd_dump(rx, full, nomacro=False):
